@@ -227,6 +227,10 @@ var helper *detHelper
 func startDetHelper() {
 	exe, _ := os.Executable()
 	cmd := exec.Command(exe, "C17", "helper")
+	// the second process also lives in another time zone than the first one
+	// (which runs with TZ=America/St_Johns, see Batch.Env): nothing observable
+	// may depend on the process's local time zone
+	cmd.Env = append(os.Environ(), "TZ=Asia/Tokyo")
 	cmd.Stderr = os.Stderr
 	w, _ := cmd.StdinPipe()
 	r, _ := cmd.StdoutPipe()
@@ -314,7 +318,7 @@ type orderSpec struct {
 // instrumented copy of the library.
 func C17() *sim.Check {
 	sitesByID := loadSites()
-	b := &sim.Batch{Name: "orders", Quick: 900, Thorough: 30_000, Isolated: true, PerProc: 40, Workers: 16, ChildTimeout: 900 * time.Second}
+	b := &sim.Batch{Name: "orders", Quick: 900, Thorough: 30_000, Isolated: true, PerProc: 40, Workers: 16, ChildTimeout: 900 * time.Second, Env: []string{"TZ=America/St_Johns"}}
 	b.ChildInit = startDetHelper
 	b.Run = func(c *sim.RunCtx) *sim.Outcome {
 		t := c.T
@@ -419,7 +423,7 @@ func C17() *sim.Check {
 	}
 	ck := &sim.Check{
 		Prop: "C17", Harness: "h_determ", Level: "exploration",
-		Rule:        "A run draws a font (up to 40 glyphs), metrics (up to 30 glyphs, several ligatures per glyph, kerning), a CMap file with 2-4 CMaps and a program; every operation (Font.Write x 4 formats, WritePDF, Metrics.Write, type1.Read of each written file, afm.Read, ReadCMap, Execute, the order-sensitive queries) runs under the canonical sorted map order with a frozen simulated clock, then under reverse, rotated, two random (Fisher-Yates from the tape), a single-adjacent-swap and Go's native order with a jumping clock and heap churn in between, and once more in a second OS process under Go's native order; all outputs must be byte-identical. The map-order and clock seams are injected into a scratch copy of the current tree by tools/instrument (13 sites today; recomputed on every run). distinct_nontrivial counts distinct (reference output hash, operation, order mode, permutation draws) executions in which at least one map with >= 2 entries was iterated in a permuted order.",
+		Rule:        "A run draws a font (up to 40 glyphs), metrics (up to 30 glyphs, several ligatures per glyph, kerning), a CMap file with 2-4 CMaps and a program; every operation (Font.Write x 4 formats, WritePDF, Metrics.Write, type1.Read of each written file, afm.Read, ReadCMap, Execute, the order-sensitive queries) runs under the canonical sorted map order with a frozen simulated clock, then under reverse, rotated, two random (Fisher-Yates from the tape), a single-adjacent-swap and Go's native order with a jumping clock and heap churn in between, and once more in a second OS process (other map hash seed, other addresses, another local time zone) under Go's native order; all outputs must be byte-identical. The map-order and clock seams are injected into a scratch copy of the current tree by tools/instrument (13 sites today; recomputed on every run). distinct_nontrivial counts distinct (reference output hash, operation, order mode, permutation draws) executions in which at least one map with >= 2 entries was iterated in a permuted order.",
 		Assume:      []string{"map iteration hidden inside dependencies and not reached through maps.Keys/Values (reflection) is outside the seam; the second-process repetition samples Go's native order for it", "PostScript forall over a dictionary is only used with an order-insensitive body", "metrics bounding boxes are well-formed (LL <= UR): rect.Extend is order-dependent for inverted boxes, which is outside the representable domain"},
 		RealStub:    map[string]any{"real": []string{"all go-postscript packages, seam-instrumented copy of the current working tree (map range / maps.Keys order and time.Now routed through simrt)", "text/template, sort, x/exp/maps"}, "stub": []string{"map iteration order oracle", "clock", "heap churn"}},
 		Batches:     []*sim.Batch{b},
